@@ -18,7 +18,7 @@
      are judged on the real dispatcher by runner B. *)
 From AV Require Import Lib.Base Gen.Consts H1.Chunked H1.ChunkedSpec H1.ChunkedProofs H1.PayloadDec
   H1.PayloadDecProofs H1.Framing H1.FramingProofs H1.Codec H1.SimpleHead H1.CodecProofs
-  H1.CodecSegProofs.
+  H1.CodecSegProofs H1.Gate H1.GateProofs.
 
 (* ===== 1. segmentation independence of the body decoders (unbounded) ======================= *)
 
@@ -311,6 +311,45 @@ Proof.
   intros head HL buf acc. apply run_enough; [assumption|exact I|].
   unfold run_fuel, measure. pose proof (pend_le1 codec0). lia.
 Qed.
+
+(* ===== 8. the READ_DISCONNECT gate of the dispatcher (H1/Gate.v) ============================= *)
+
+(* "no byte after the point of rejection is ever interpreted as a request": from the initial
+   state, under EVERY schedule of socket reads, poll_request calls, payload back-pressure answers,
+   queue lengths and read-buffer leftovers, and for any tokenizer: once a rejection has happened
+   (400 / 431 queued, or the I/O-class disconnect), no later operation changes the sequence of
+   requests and body bytes the application sees.  The proof rests on the transcription of
+   `can_read` (READ_DISCONNECT => false, unconditionally). *)
+Theorem C01_gate_nothing_after_reject : forall head (ops1 ops2 : list gop) e,
+  let ex := gexec head H1_MAX_BUFFER_SIZE H1_MAX_PIPELINED_MESSAGES in
+  g_rejected (ex ops1 gate0) = Some e ->
+  g_msgs (ex (ops1 ++ ops2) gate0) = g_msgs (ex ops1 gate0) /\
+  g_rejected (ex (ops1 ++ ops2) gate0) = Some e.
+Proof. intros head ops1 ops2 e ex H. apply nothing_after_reject. exact H. Qed.
+
+(* every rejection sets READ_DISCONNECT, and the flag freezes messages, rejection and read buffer *)
+Theorem C01_gate_rejection_disconnects : forall head (ops : list gop),
+  let g := gexec head H1_MAX_BUFFER_SIZE H1_MAX_PIPELINED_MESSAGES ops gate0 in
+  g_rejected g <> None -> g_read_disconnect g = true.
+Proof. intros head ops g. apply (gexec_inv head _ _ ops gate0). intro H; contradiction. Qed.
+
+(* non-vacuity: GET /ok | POST with Content-Length AND Transfer-Encoding | GET /smuggled in one
+   read: one request is delivered, the second is rejected (ParseError::Header -> 400), and polling
+   again with the smuggled request still in the read buffer changes nothing *)
+Definition gate_ex_stream : bytes :=
+  [71;69;84;32;47;111;107;32;72;84;84;80;47;49;46;49;13;10;13;10] ++
+  [80;79;83;84;32;47;98;32;72;84;84;80;47;49;46;49;13;10;67;111;110;116;101;110;116;45;76;101;110;103;116;104;58;32;51;13;10;
+   84;114;97;110;115;102;101;114;45;69;110;99;111;100;105;110;103;58;32;99;104;117;110;107;101;100;13;10;13;10].
+Definition gate_ex_smuggled : bytes :=
+  [71;69;84;32;47;115;32;72;84;84;80;47;49;46;49;13;10;13;10].
+Example C01_example_gate :
+  let ex := gexec (simple_head H1_MAX_HEADERS) H1_MAX_BUFFER_SIZE H1_MAX_PIPELINED_MESSAGES in
+  let g1 := ex [ORead (gate_ex_stream ++ gate_ex_smuggled); OPoll true gate_ex_smuggled] gate0 in
+  let g2 := ex [ORead (gate_ex_stream ++ gate_ex_smuggled); OPoll true gate_ex_smuggled;
+                OQueue 0; OPoll true []; ORead gate_ex_smuggled; OPoll true []] gate0 in
+  g_rejected g1 = Some EHeader /\ length (g_msgs g1) = 1%nat /\ g_read_buf g1 = gate_ex_smuggled /\
+  g_msgs g2 = g_msgs g1 /\ g_rejected g2 = Some EHeader.
+Proof. vm_compute. repeat split. Qed.
 
 (* ===== non-vacuity ============================================================================ *)
 (* GET /a (no body) | POST /b with Content-Length: 3 | POST /c chunked with an extension,
